@@ -1,4 +1,6 @@
 import Pfst.RawLemmas
+import Pfst.RawSeq
+import Pfst.ModifyingLemmas
 import Pfst.Offset
 
 /-!
@@ -494,5 +496,81 @@ example : (runBase (fun ls => if ls = [['x']] then some 1 else none) (fun (_ : N
     = ⟨[['a']], 0⟩ := by rfl
 example : (runBase (fun ls => if ls = [['x']] then some 1 else none) (fun (_ : Nat) w => w) ⟨[['a']], 0⟩ [['a']] [['x']] ⟨0, 0, 0, 1⟩).self
     = ⟨[['x']], 1⟩ := by rfl
+
+end Pfst.C10
+
+/-! ## histories: the modification registry -/
+namespace Pfst.C10
+open Pfst.Raw Pfst.Modifying
+
+/-- One raw put restores the registry exactly, whether it returns, the parser refuses, or `enter()` itself refuses. -/
+theorem raw_put_registry_restored {T W : Type} (parse : Lines → Option W) (fix : T → W → T) (w : World T) (e : Edit)
+    (hwf : w.reg.wf = true) : (rawPut parse fix w e).1.reg = w.reg := by
+  unfold rawPut
+  split
+  · rfl
+  · next reg1 he =>
+    have h := (enter_then_exit e.node true false w.reg reg1 hwf he).2
+    simp only [h]
+
+/-- From an empty registry a raw put fails only with the parser's exception, exactly when the parser refuses the text
+handed to it — never with the registry's `RuntimeError('nested modification ...')`. -/
+theorem raw_put_outcome {T W : Type} (parse : Lines → Option W) (fix : T → W → T) (st : St T) (e : Edit) :
+    (rawPut parse fix ⟨st, []⟩ e).2 =
+      if (parse (putSrc (e.copyOf st.lines) e.new e.rect)).isSome then none else some (Exc.user true) := by
+  have he : enter e.node true false [] = .ok [(e.node.root, (e.node.node, 1))] := rfl
+  have hx := (enter_then_exit e.node true false [] _ rfl he).2
+  unfold rawPut
+  simp only [he, hx]
+  cases hp : parse (putSrc (e.copyOf st.lines) e.new e.rect) <;> simp [runBase, hp]
+
+/-- **raw_seq_registry_empty**: after ANY history of raw puts (accepted and refused, on any nodes, any texts) that starts
+with an empty registry, the registry is empty again. -/
+theorem raw_seq_registry_empty {T W : Type} (parse : Lines → Option W) (fix : T → W → T) (st : St T) (es : List Edit) :
+    (runSeq parse fix ⟨st, []⟩ es).1.reg = [] := by
+  induction es generalizing st with
+  | nil => rfl
+  | cons e es ih =>
+    have h := raw_put_registry_restored parse fix ⟨st, []⟩ e rfl
+    simp only [runSeq]
+    have hw : rawPut parse fix ⟨st, []⟩ e = (⟨(rawPut parse fix ⟨st, []⟩ e).1.st, []⟩, (rawPut parse fix ⟨st, []⟩ e).2) := by
+      rcases hr : rawPut parse fix ⟨st, []⟩ e with ⟨⟨s1, r1⟩, o⟩
+      rw [hr] at h
+      simp only at h
+      subst h
+      rfl
+    rw [hw]
+    exact ih _
+
+/-- **raw_seq_no_registry_error**: in such a history no step ever fails because of an earlier step: every outcome is
+"returned" or the parser's own refusal. -/
+theorem raw_seq_no_registry_error {T W : Type} (parse : Lines → Option W) (fix : T → W → T) (st : St T)
+    (es : List Edit) : ∀ o ∈ (runSeq parse fix ⟨st, []⟩ es).2, o = none ∨ o = some (Exc.user true) := by
+  induction es generalizing st with
+  | nil => intro o ho; simp [runSeq] at ho
+  | cons e es ih =>
+    intro o ho
+    have h := raw_put_registry_restored parse fix ⟨st, []⟩ e rfl
+    have hout := raw_put_outcome parse fix st e
+    rcases hr : rawPut parse fix ⟨st, []⟩ e with ⟨⟨s1, r1⟩, o1⟩
+    rw [hr] at h hout
+    simp only at h hout
+    subst h
+    simp only [runSeq, hr, List.mem_cons] at ho
+    rcases ho with rfl | ho
+    · rw [hout]; split <;> simp
+    · exact ih s1 o ho
+
+/-- **leaky_seq_false**: with the manual `enter() ... success()` protocol that forgets `fail()` (not the code; seeded
+mutation C10-seedB) a refused put leaves its entry behind, and the next put — valid, on another node — is refused with
+the registry's `nested` error.  Parser: rejects `(`, accepts everything else. -/
+theorem leaky_seq_false :
+    let parse : Lines → Option Nat := fun ls => if ls = [['(']] then none else some 0
+    let e1 : Edit := ⟨⟨0, 1⟩, id, [['(']], ⟨0, 0, 0, 1⟩⟩
+    let e2 : Edit := ⟨⟨0, 2⟩, id, [['b']], ⟨0, 0, 0, 1⟩⟩
+    let r := runSeqLeaky parse (fun (_ : Nat) w => w) ⟨⟨[['a']], 0⟩, []⟩ [e1, e2]
+    r.2 = [some (Exc.user true), some Exc.nested] ∧ r.1.reg ≠ [] ∧ r.1.st.lines = [['a']]
+    ∧ (runSeq parse (fun (_ : Nat) w => w) ⟨⟨[['a']], 0⟩, []⟩ [e1, e2]).2 = [some (Exc.user true), none] := by
+  decide
 
 end Pfst.C10
